@@ -74,7 +74,7 @@ impl MonitorSet {
             let has = |v: u64| -> bool {
                 match sim.nodes.iter().find(|n| n.id == v) {
                     None => false,
-                    Some(n) => match n.store.term(ci) {
+                    Some(n) => match n.durable.term(ci) {
                         Ok(t) => t == term,
                         Err(raft::Error::Store(raft::StorageError::Compacted)) => true,
                         Err(_) => false,
